@@ -477,3 +477,12 @@ def jitter_plan_case(rng):
         stages.append(st)
     top = "scenario=%s,maxdur=%d,conc=2,maxit=0,igndrop=1" % (hx("scn"), 10 * S)
     return "plan 0 %s %s %s" % (top, enc_stage(dflt), " ".join(enc_stage(s) or "-" for s in stages))
+
+
+def pipeline_case(rng, jitter=None, cycles=None):
+    """the composed constant-rate pipeline (ParseRate -> WithJitter -> NewDistribution) over whole cycles"""
+    r = "%d/%s" % (rng.choice([0, 1, 3, 7, 10, 100, 999, 12345]), rng.choice(["s", "500ms", "200ms", "1500ms", "100ms", "50ms", "2s", "10s", "m"]))
+    jn, jd = jitter if jitter is not None else rng.choice([(0, 1), (1, 2), (5, 1), (20, 1), (50, 1), (75, 1), (799, 8)])
+    d = rng.choice(["none", "regular", "regular", "random", "random"])
+    c = cycles if cycles is not None else rng.choice([1, 2, 10, 100, 400])
+    return "pipeline %s %d %d %s %d" % (hx(r), jn, jd, hx(d), c)
